@@ -42,7 +42,7 @@ def rule_flow(ctx):
     ctx.require(len(classes) >= 25, f"only {len(classes)} message classes with parse() found")
     ctx._c08 = {}
     for c in classes:
-        it = Interp(ctx.program, max_disjuncts=64)
+        it = Interp(ctx.program, max_disjuncts=256)
         seen_asserts = {}
         it.assert_pred = lambda g: g.module.name == MSGMOD and g.name in CHECKED_CTORS
         fn = c.methods["parse"]
